@@ -62,7 +62,12 @@ func runC08(c *Ctx) {
 }
 
 // c08Registry parses ExtensionFromID's switch: case constants -> returned literal type.
+// registryLits holds, per registry id, the evaluated composite literal the case returns.
+var registryLits map[int64]*AVal
+
 func registryTable(c *Ctx) (map[int64]string, map[int64]token.Pos, bool) {
+	registryLits = map[int64]*AVal{}
+	ev := newEvaluator(c.P.TLS)
 	tls := c.P.TLS
 	info := tls.TypesInfo
 	fd := load.FuncDecl(tls, "", "ExtensionFromID")
@@ -77,11 +82,13 @@ func registryTable(c *Ctx) (map[int64]string, map[int64]token.Pos, bool) {
 			return true
 		}
 		tn := ""
+		var lit *AVal
 		for _, s := range cc.Body {
 			if rs, ok := s.(*ast.ReturnStmt); ok && len(rs.Results) == 1 {
 				ast.Inspect(rs.Results[0], func(x ast.Node) bool {
 					if cl, ok := x.(*ast.CompositeLit); ok && tn == "" {
 						tn = an.TypeName(info.TypeOf(cl))
+						lit = ev.Eval(cl)
 					}
 					return true
 				})
@@ -91,6 +98,7 @@ func registryTable(c *Ctx) (map[int64]string, map[int64]token.Pos, bool) {
 			if v, ok := an.ConstInt(info, e); ok && tn != "" {
 				tab[v] = tn
 				pos[v] = e.Pos()
+				registryLits[v] = lit
 			}
 		}
 		return true
@@ -122,6 +130,22 @@ func c08Registry(c *Ctx, rule string, exts []*extImpl, results map[string]*codec
 		for _, k := range res.idConst {
 			if k == id {
 				emits = true
+			}
+		}
+		// a two-valued id: the constructor's flag decides which constant Read emits
+		if emits && len(res.idConst) == 2 && strings.HasPrefix(res.idCond, "e.") && registryLits[id] != nil {
+			flag := strings.TrimPrefix(res.idCond, "e.")
+			set := false
+			if f := registryLits[id].Field(flag); f != nil && f.Kind == "bool" {
+				set = f.Bool
+			}
+			want := res.idConst[0]
+			if set {
+				want = res.idConst[1]
+			}
+			if want != id {
+				r.Bad(rule, cons, c.P.Pos(pos[id]), "registry case %d constructs %s with %s=%v, whose Read emits type %d: a fingerprinted extension of type %d is re-sent as %d", id, tn, flag, set, want, id, want)
+				continue
 			}
 		}
 		r.Check(emits, rule, cons, c.P.Pos(pos[id]), fmt.Sprintf("%s.Read emits type %d", tn, id),
